@@ -120,9 +120,10 @@ class OwnAnalysis:
         self.loop_scoped = {}
         for n in fn.walk():
             if n.k in ("WhileStmt", "ForStmt", "DoStmt"):
-                hb = [b for b in self.cfg.blocks.values() if b.term is n]
-                if not hb:
+                hid = self.cfg.loop_header(n)
+                if hid is None:
                     continue
+                hb = [self.cfg.blocks[hid]]
                 body = n.child("body")
                 names = set()
                 if body is not None:
